@@ -217,15 +217,20 @@ PROPS = {
     },
     "C13": {
         "level": "proof",
-        "lean_modules": ["CrabProofs.Props.C13", "CrabProofs.Props.C13WInt", "CrabProofs.Props.C13WInt2"],
+        "lean_modules": ["CrabProofs.Props.C13", "CrabProofs.Props.C13WInt", "CrabProofs.Props.C13WInt2", "CrabProofs.Props.C13WDom",
+                         "CrabProofs.Props.C13WDomEnv", "CrabProofs.Props.C13WDomAssume", "CrabProofs.Props.C13WDomHist"],
         "components": [{"harness": "h_wrap", "quick": 400000, "thorough": 8000000, "shards": 16,
                         "nontrivial": lambda l: True},
                        {"harness": "h_wint", "quick": 100000, "thorough": 2000000, "shards": 16, "corpus": "h_wint",
                         "nontrivial": lambda l: " top" not in l and " bot" not in l},
                        {"harness": "h_wint", "key": "h_wint_exhaustive", "args": ["--exhaustive"], "quick": 70000, "thorough": 1140000,
-                        "shards": 1, "nontrivial": lambda l: " top" not in l and " bot" not in l}],
+                        "shards": 1, "nontrivial": lambda l: " top" not in l and " bot" not in l},
+                       # wrapped_interval_domain (the domain on top of the scalar): exact model compared after every operation,
+                       # bit-vector witness replay; assume / entails judged on witnesses whose constraint cannot overflow
+                       {"harness": "h_wdom", "quick": 6000, "thorough": 150000, "shards": 8,
+                        "nontrivial": lambda l: "(arith " in l or "(assume " in l or "(cast " in l}],
         "rule": "wrapint: all widths 1..64 (biased to 1,2,7,8,31,32,33,63,64) x operands biased to 0,1,2^(w-1)-1,2^(w-1),2^w-1,random x every operation incl. shift amounts >= the width; each answer compared with the model and with BitVec w directly. wrapped_interval: every operation over random intervals at random widths (poles crossing, top, bottom) and EXHAUSTIVELY over every pair of intervals at width 3 (quick) / 3 and 4 (thorough); soundness of each answer checked against all concrete bit-vector members (complete enumeration for w <= 6); distinct = distinct request lines",
-        "assumptions": ["construction from a big integer outside int64 raises CRAB_ERROR (documented limitation): skipped", "wrapped_interval_domain (the domain on top of wrapped_interval) is not driven: the program harness works on mathematical-integer states", "widening_thresholds of wrapped_interval is not modelled (same fixed branch as ||)"],
+        "assumptions": ["construction from a big integer outside int64 raises CRAB_ERROR (documented limitation): skipped", "wrapped_interval_domain: crab does not say whether the expression of an assumed linear constraint is evaluated over the integers or with wrap-around; assume / entails are judged only on witnesses for which both readings agree; wrapped_numerical_domain and the with-history variant are not driven", "widening_thresholds of wrapped_interval is not modelled (same fixed branch as ||)"],
         "trusted_base": COMMON_TB + ["model: CrabModel/Num/WrapInt.lean"],
     },
     "C07": {
